@@ -8,7 +8,7 @@ CONE = [
     'csep.core.catalogs.AbstractBaseCatalog.filter_spatial',
     'csep.utils.time_utils.datetime_to_utc_epoch',
 ]
-ORACLE_MODULES = ['rt.oracles_grid']
+ORACLE_MODULES = ['rt.oracles_grid', 'rt.oracles_time']
 BOUNDED = os.path.exists(os.path.join(os.path.dirname(__file__), '..', 'rt', 'bounded_C04.py'))
 FLOAT_MODEL = 'R for attribute values and thresholds (comparisons are exact on floats anyway); origin times are integers'
 TRUSTED = [
